@@ -673,7 +673,7 @@ func c02Idle(u fw.Unit) fw.Result {
 			}
 		}
 	}
-	a.sample(map[string]any{"idle_timeout": "5s", "steps": "Emit ts in {9500,10500,12500} then Sleep in {0,3s,6s}, after a first Emit(10000)+2s"})
+	a.sample(map[string]any{"oracles": "no delivery before the watermark or the idle timeout; an event that arrives after an idle advance and lies behind processing time - tolerance changes no result", "idle_timeout": "5s", "steps": "Emit ts in {9500,10500,12500} then Sleep in {0,3s,6s}, after a first Emit(10000)+2s"})
 	return a.result()
 }
 
